@@ -33,16 +33,12 @@ func (pad iso9797M3Padding) Pad(src []byte) []byte {
 		panic("padding: total length overflow")
 	}
 
-	if cap(src) >= total {
-		head = src[:total]
-	} else {
-		head = make([]byte, total)
-	}
-
+	// The length block comes first, so the result is not an extension of src: always
+	// build it in new memory instead of shifting the caller's data inside src's
+	// spare capacity (which overwrote the start of the caller's message).
+	head = make([]byte, total)
 	tail = head[srcLen+pad.BlockSize():]
-	// move the data first: head may share its memory with src
 	copy(head[pad.BlockSize():], src)
-	clear(head[:pad.BlockSize()])
 	if overhead > 0 {
 		clear(tail)
 	}
